@@ -43,6 +43,10 @@ struct FnSpec {
     /// R25: fragments moved verbatim into generated helper fns (verified, with their own contract)
     #[serde(default)]
     outlines: Vec<Outline>,
+    /// for outlined helpers: an *assumed* fact about the value of the tail expression (std adapter
+    /// semantics the verifier's library does not specify); emitted as `assume(..)` and inventoried
+    #[serde(default)]
+    tail_assume: Option<String>,
 }
 
 #[derive(Deserialize, Clone)]
@@ -176,6 +180,23 @@ fn norm(ts: &TokenStream) -> String {
         }
     }
     s
+}
+
+/// normalized text with the internal numbering attributes removed (used for anchor matching)
+fn norm_m(ts: &TokenStream) -> String {
+    let s = norm(ts);
+    let mut out = String::new();
+    let mut rest = s.as_str();
+    while let Some(p) = rest.find("#[vx_ord(") {
+        out.push_str(&rest[..p]);
+        let after = &rest[p..];
+        match after.find(")]") {
+            Some(q) => rest = &after[q + 2..],
+            None => { rest = ""; }
+        }
+    }
+    out.push_str(rest);
+    out
 }
 
 fn norm_str(s: &str) -> Result<String, String> {
@@ -451,13 +472,48 @@ impl<'a> VisitMut for Rewriter<'a> {
     }
 
     fn visit_block_mut(&mut self, b: &mut Block) {
-        // statement-level pins first (match against normalized statement text)
+        // multi-statement pins: a consecutive run of statements whose concatenated text equals the original
         for (pi, pin) in self.spec.pins.iter().enumerate() {
-            if !pin.stmt {
+            if !pin.stmt || self.pin_used[pi] {
+                continue;
+            }
+            let target = &self.pins_norm[pi];
+            let n = b.stmts.len();
+            let norms: Vec<String> = b.stmts.iter().map(|s| norm_m(&s.to_token_stream())).collect();
+            let mut found: Option<(usize, usize)> = None;
+            'outer: for i in 0..n {
+                let mut acc = String::new();
+                for j in i..n {
+                    acc.push_str(&norms[j]);
+                    if acc.len() > target.len() {
+                        break;
+                    }
+                    if &acc == target && j > i {
+                        found = Some((i, j));
+                        break 'outer;
+                    }
+                }
+            }
+            if let Some((i, j)) = found {
+                match syn::parse_str::<Block>(&format!("{{ {} }}", pin.replacement)) {
+                    Ok(rb) => {
+                        let line = line_of(&b.stmts[i]);
+                        let repl = rb.stmts;
+                        b.stmts.splice(i..=j, repl);
+                        self.pin_used[pi] = true;
+                        self.log.push(RewriteLog { rule: "R13".into(), line, detail: format!("pinned statement range ({} statements) -> {}", j - i + 1, pin.replacement.chars().take(80).collect::<String>()) });
+                    }
+                    Err(e) => self.errors.push(format!("pin replacement unparsable: {}", e)),
+                }
+            }
+        }
+        // statement-level pins (match against normalized statement text)
+        for (pi, pin) in self.spec.pins.iter().enumerate() {
+            if !pin.stmt || self.pin_used[pi] {
                 continue;
             }
             for s in b.stmts.iter_mut() {
-                if norm(&s.to_token_stream()) == self.pins_norm[pi] {
+                if norm_m(&s.to_token_stream()) == self.pins_norm[pi] {
                     let line = line_of(s);
                     match syn::parse_str::<Stmt>(&pin.replacement)
                         .or_else(|_| syn::parse_str::<Expr>(&pin.replacement).map(|e| Stmt::Expr(e, None)))
@@ -496,7 +552,7 @@ impl<'a> VisitMut for Rewriter<'a> {
                 }
             }
             // hints
-            let ns = norm(&s.to_token_stream());
+            let ns = norm_m(&s.to_token_stream());
             let mut before: Vec<Stmt> = vec![];
             let mut after: Vec<Stmt> = vec![];
             for (hi, h) in self.spec.hints.iter().enumerate() {
@@ -533,7 +589,7 @@ impl<'a> VisitMut for Rewriter<'a> {
 
     fn visit_expr_mut(&mut self, e: &mut Expr) {
         // expression pins (R13), matched before any inner rewriting
-        let ne = norm(&e.to_token_stream());
+        let ne = norm_m(&e.to_token_stream());
         for (pi, pin) in self.spec.pins.iter().enumerate() {
             if pin.stmt {
                 continue;
@@ -595,6 +651,8 @@ impl<'a> VisitMut for Rewriter<'a> {
                         let inner = &t.expr;
                         let r: Expr = if kind == "option" {
                             parse_quote!(match #inner { Some(v) => v, None => return None })
+                        } else if kind == "same" {
+                            parse_quote!(match #inner { Ok(v) => v, Err(e) => return Err(e) })
                         } else {
                             parse_quote!(match #inner { Ok(v) => v, Err(e) => return Err(From::from(e)) })
                         };
@@ -814,7 +872,8 @@ fn parse_closure_header(h: &str) -> Result<(Vec<syn::Pat>, String, syn::Type), S
     let params = h[..arrow].trim();
     let ret = h[arrow + 2..].trim();
     let c: syn::ExprClosure = syn::parse_str(&format!("{} ()", params)).map_err(|e| format!("{}: {}", params, e))?;
-    let ret = ret.trim_start_matches('(').trim_end_matches(')');
+    let ret = ret.trim();
+    let ret = if ret.starts_with('(') && ret.ends_with(')') { &ret[1..ret.len() - 1] } else { ret };
     let colon = ret.find(':').ok_or("no name: in closure return")?;
     let rname = ret[..colon].trim().to_string();
     let rty: syn::Type = syn::parse_str(ret[colon + 1..].trim()).map_err(|e| e.to_string())?;
@@ -829,7 +888,7 @@ struct Outliner {
 impl VisitMut for Outliner {
     fn visit_item_mut(&mut self, _i: &mut Item) {}
     fn visit_expr_mut(&mut self, e: &mut Expr) {
-        if self.found.is_none() && norm(&e.to_token_stream()) == self.target {
+        if self.found.is_none() && norm_m(&e.to_token_stream()) == self.target {
             let orig = std::mem::replace(e, self.call.clone());
             self.found = Some(orig);
             return;
@@ -1335,17 +1394,19 @@ fn clean_type_item(it: &mut Item, keep: &[String], log: &mut Vec<RewriteLog>, dr
     let copy = derives.iter().any(|d| d == "Copy");
     is_copy = copy;
     let mut kept: Vec<String> = vec![];
+    let has_generics = !generics.params.is_empty();
     for d in &derives {
         if d == "Clone" && !is_copy {
-            let (ig, tg, wc) = generics.split_for_impl();
-            extra.push(format!(
-                "impl {} Clone for {} {} {} {{\n    #[verifier::external_body]\n    fn clone(&self) -> (r: Self)\n        ensures r == *self,\n    {{ unimplemented!() }}\n}}",
-                ig.to_token_stream(), ident, tg.to_token_stream(), wc.to_token_stream()
-            ));
+            extra.push("@gen:Clone".into());
             log.push(RewriteLog { rule: "R1".into(), line, detail: format!("derive(Clone) on {} -> assumed structural clone spec", ident) });
             continue;
         }
-        if keep.contains(d) {
+        if (d == "PartialEq" || d == "Eq" || d == "Default") && !has_generics && keep.contains(d) {
+            extra.push(format!("@gen:{}", d));
+            log.push(RewriteLog { rule: "R1".into(), line, detail: format!("derive({}) on {} -> generated impl with the assumed meaning of the derive (structural)", d, ident) });
+            continue;
+        }
+        if keep.contains(d) && d != "Default" {
             kept.push(d.clone());
         } else {
             log.push(RewriteLog { rule: "R1".into(), line, detail: format!("derive({}) on {} dropped", d, ident) });
@@ -1356,6 +1417,61 @@ fn clean_type_item(it: &mut Item, keep: &[String], log: &mut Vec<RewriteLog>, dr
         attrs.push(parse_quote!(#[derive(#(#ids),*)]));
     }
     extra
+}
+
+/// R1: text of the impls standing for derive(Clone/PartialEq/Eq/Default) (assumed: derives are structural)
+fn gen_derive_impls(it: &mut Item, gens: &[String]) -> Vec<String> {
+    let mut out = vec![];
+    let (ident, generics) = match it {
+        Item::Struct(s) => (s.ident.clone(), s.generics.clone()),
+        Item::Enum(s) => (s.ident.clone(), s.generics.clone()),
+        _ => return out,
+    };
+    let (ig, tg, wc) = generics.split_for_impl();
+    let (ig, tg, wc) = (ig.to_token_stream().to_string(), tg.to_token_stream().to_string(), wc.to_token_stream().to_string());
+    // default value expression
+    let mut default_expr: Option<String> = None;
+    match it {
+        Item::Struct(s) => {
+            match &s.fields {
+                syn::Fields::Named(n) => {
+                    let fs: Vec<String> = n.named.iter().map(|f| format!("{}: <{} as VxDefault>::vx_default()", f.ident.as_ref().unwrap(), f.ty.to_token_stream())).collect();
+                    default_expr = Some(format!("{} {{ {} }}", ident, fs.join(", ")));
+                }
+                syn::Fields::Unnamed(n) => {
+                    let fs: Vec<String> = n.unnamed.iter().map(|f| format!("<{} as VxDefault>::vx_default()", f.ty.to_token_stream())).collect();
+                    default_expr = Some(format!("{}({})", ident, fs.join(", ")));
+                }
+                syn::Fields::Unit => default_expr = Some(format!("{}", ident)),
+            }
+        }
+        Item::Enum(e) => {
+            for v in e.variants.iter_mut() {
+                if v.attrs.iter().any(|a| a.path().is_ident("default")) {
+                    default_expr = Some(format!("{}::{}", ident, v.ident));
+                }
+                v.attrs.retain(|a| !a.path().is_ident("default"));
+            }
+        }
+        _ => {}
+    }
+    for g in gens {
+        match g.as_str() {
+            "@gen:Clone" => out.push(format!(
+                "impl {ig} Clone for {ident} {tg} {wc} {{\n    #[verifier::external_body]\n    fn clone(&self) -> (r: Self)\n        ensures r == *self,\n    {{ unimplemented!() }}\n}}")),
+            "@gen:PartialEq" => out.push(format!(
+                "impl vstd::std_specs::cmp::PartialEqSpecImpl for {ident} {{\n    open spec fn obeys_eq_spec() -> bool {{ true }}\n    open spec fn eq_spec(&self, other: &{ident}) -> bool {{ *self == *other }}\n}}\nimpl PartialEq for {ident} {{\n    #[verifier::external_body]\n    fn eq(&self, other: &{ident}) -> (b: bool)\n        ensures b == (*self == *other),\n    {{ unimplemented!() }}\n}}")),
+            "@gen:Eq" => out.push(format!("impl Eq for {ident} {{}}")),
+            "@gen:Default" => {
+                if let Some(de) = &default_expr {
+                    out.push(format!(
+                        "impl VxDefault for {ident} {{\n    open spec fn vx_default() -> Self {{ {de} }}\n}}\nimpl Default for {ident} {{\n    #[verifier::external_body]\n    fn default() -> (r: Self)\n        ensures r == <{ident} as VxDefault>::vx_default(),\n    {{ unimplemented!() }}\n}}"));
+                }
+            }
+            _ => {}
+        }
+    }
+    out
 }
 
 fn process_unit(job: &Job, ctx: &Ctx, u: &UnitReq, uidx: usize, vac: bool) -> UnitOut {
@@ -1480,6 +1596,10 @@ fn process_unit(job: &Job, ctx: &Ctx, u: &UnitReq, uidx: usize, vac: bool) -> Un
                         }
                     }
                 }
+                let gens: Vec<String> = extra.iter().filter(|e| e.starts_with("@gen:")).cloned().collect();
+                let mut extra: Vec<String> = extra.into_iter().filter(|e| !e.starts_with("@gen:")).collect();
+                let generated = gen_derive_impls(&mut it, &gens);
+                extra.splice(0..0, generated);
                 text = it.to_token_stream().to_string();
                 for e in extra {
                     post_text.push_str("\n");
@@ -1581,8 +1701,22 @@ fn process_unit(job: &Job, ctx: &Ctx, u: &UnitReq, uidx: usize, vac: bool) -> Un
                                     if !vac {
                                         match syn::parse_str::<syn::ItemFn>(&format!("pub {} {{ }}", ol.header)) {
                                             Ok(mut hf) => {
-                                                hf.block.stmts.push(Stmt::Expr(orig, None));
                                                 let hspec = u.fns.get(&ol.name).unwrap_or(&default_spec);
+                                                if hspec.tail_assume.is_some() {
+                                                    let rn = syn::Ident::new(hspec.ret.as_deref().unwrap_or("r"), proc_macro2::Span::call_site());
+                                                    let mk = syn::Ident::new(&format!("__vxhint_u{}f{}o{}_ta", uidx, fidx, oi), proc_macro2::Span::call_site());
+                                                    let rty: syn::Type = match &hf.sig.output {
+                                                        syn::ReturnType::Default => parse_quote!(()),
+                                                        syn::ReturnType::Type(_, t) => (**t).clone(),
+                                                    };
+                                                    hf.block.stmts.push(parse_quote!(let #rn: #rty = #orig;));
+                                                    hf.block.stmts.push(parse_quote!(#mk!{};));
+                                                    hf.block.stmts.push(Stmt::Expr(parse_quote!(#rn), None));
+                                                    subs.push(("hint".into(), format!("__vxhint_u{}f{}o{}_ta", uidx, fidx, oi),
+                                                        format!("proof {{\n    // ASSUMED (std iterator-adapter semantics, not specified by vstd):\n    assume({});\n}}", hspec.tail_assume.clone().unwrap().trim().trim_end_matches(','))));
+                                                } else {
+                                                    hf.block.stmts.push(Stmt::Expr(orig, None));
+                                                }
                                                 let huid = format!("u{}f{}o{}", uidx, fidx, oi);
                                                 process_fn(ctx, u, &huid, &mut hf.attrs, &mut hf.sig, &mut hf.block, hspec, &mut out, &mut subs);
                                                 extra_fns.push(hf);
